@@ -330,6 +330,33 @@ func TestC11(t *testing.T) {
 						c.Count("doc.secondlist.valid")
 					}
 				}
+				// a key declared only by the FIRST list's other branches, with a value of another type:
+				// the second list does not declare it, so it must be ignored
+				declared := map[string]bool{}
+				for _, b := range cc.second.Branches {
+					if rb := b.Resolve(); rb != nil {
+						for _, p := range rb.Props {
+							declared[p.Name] = true
+						}
+					}
+				}
+				for _, b := range cc.branches[1:] {
+					for _, p := range b.Props {
+						if declared[p.Name] {
+							continue
+						}
+						foreign := jv.ObjV(jv.Field("zzk", jv.IntV(1)))
+						doc := jv.ObjV(jv.Field(cc.secondName, base.Set(p.Name, foreign)))
+						if cok {
+							doc.O = append(doc.O, jv.KV{K: "c", V: cdoc})
+						}
+						if oracle.Accepts(cc.file.Root, doc) {
+							jobs = append(jobs, core.Job{Type: progRoot, Op: "json", Doc: string(doc.Marshal()), Expect: "accept", Label: "secondlist:foreign-key"})
+							c.Count("doc.secondlist.foreign_key")
+						}
+						declared[p.Name] = true
+					}
+				}
 				// single-fault mutants inside the second list
 				full := jv.ObjV(jv.Field(cc.secondName, base))
 				if cok {
